@@ -170,6 +170,33 @@ def run(ctx):
     ctx.exhaustive[R] = True
 
     # ------------------------------------------------------------------
+    R = "C09.lines_are_truthy"
+    ctx.rule(R, "the result of the duplicate search and of the finders is "
+             "tested by truth value (`if previous:`): no line class may "
+             "define __bool__ or __len__, otherwise a found line can count "
+             "as 'identifier free' (e.g. a group without items) and a second "
+             "line is registered under the same identifier", floor=10)
+    truth_tests = 0
+    f_conn = ctx.anchor("Line.connect", Line.find_method("connect"))
+    for n in walk_no_nested(f_conn.node):
+        if isinstance(n, ast.If) and isinstance(n.test, ast.Name):
+            truth_tests += 1
+    for c in sorted(repo.classes.values(), key=lambda c: c.qualname):
+        if Line not in c.mro:
+            continue
+        ctx.instance(R)
+        bad = [m for m in ("__bool__", "__len__")
+               if c.find_method(m) is not None]
+        ok = not bad or truth_tests == 0
+        ctx.oblige(ok)
+        if not ok:
+            ctx.violation(R, "class " + c.short, bad[0],
+                          "%s makes instances of this line class falsy in "
+                          "some states; Connection.connect tests the "
+                          "duplicate search with `if previous:`" % bad[0])
+    ctx.exhaustive[R] = True
+
+    # ------------------------------------------------------------------
     R = "C09.name_index"
     ctx.rule(R, "the record types whose lines are stored under their "
              "identifier (STORAGE_KEY 'name') are exactly the record types "
